@@ -143,6 +143,8 @@ type Call struct {
 	Extractor string `json:"extractor"`
 	Path      string `json:"path"`
 	InfoSize  int64  `json:"info_size"`
+	// Regular: the file information handed to Extract describes a regular file.
+	Regular bool `json:"regular,omitempty"`
 	BytesRead int64  `json:"bytes_read"`
 	ReadErr   string `json:"read_err,omitempty"`
 	CtxErr    bool   `json:"ctx_err,omitempty"`
@@ -246,6 +248,7 @@ func (e *FSExtractor) Extract(ctx context.Context, input *filesystem.ScanInput) 
 	c := Call{Extractor: e.Spec.Name, Path: input.Path, Root: input.Root, CtxErr: ctx.Err() != nil}
 	if input.Info != nil {
 		c.InfoSize = input.Info.Size()
+		c.Regular = input.Info.Mode().IsRegular()
 	}
 	e.Rec.mu.Lock()
 	c.Seq = len(e.Rec.Calls)
